@@ -7,7 +7,10 @@ Streams (correspondence, model vs implementation, exact state unless noted):
   B  one long-lived manager holding all 256 functions of 3 variables:
      every pair for one alias per connective (quick: a stride of the pairs)
      and sampled triples (results only, digest at the end);
-  C  random functions over 4..8 variables.
+  C  random functions over 4..8 variables;
+  F  dd.autoref `Function` operators and comparisons on handles of all 256
+     functions of 3 variables (constant operands always; thorough: every pair
+     for the comparisons).
 Oracle: truth table of every result (walking succ()) against the connective
 applied to the operands' truth tables.
 """
@@ -184,8 +187,78 @@ def stream_c(ctx, nv, nops):
         s.digest(0)
 
 
+def stream_f(ctx, order, pairs_per_op, all_pairs):
+    """the `Function` operators of dd.autoref (`~ & | implies equiv <= < == !=`) on handles of
+    all 256 functions of 3 variables; every pair with a constant operand always, the other
+    pairs sampled (thorough: every pair for the four comparisons)"""
+    from .. import tt as T
+    rng = ctx.rng
+    nv = 3
+    full = 255
+    s = ctx.session(f'F operators order={order}', full=False)
+    A = 'a0'
+    s.op(A, 'new', {v: l for v, l in zip(range(nv), order)})
+    H = {}
+    H[0] = s.op(A, 'false')
+    cubes = [s.op(A, 'cube', {j: bool(T.getbit(k, j, nv)) for j in range(nv)}) for k in range(8)]
+    for t in range(1, 256):
+        # t = (t without its lowest minterm) \/ that minterm
+        low = t & -t
+        H[t] = s.op(A, 'fapply', 'or', H[t ^ low], cubes[low.bit_length() - 1])
+    bdd = s.impl.amgr[A]._bdd
+    names = [vname(i) for i in range(nv)]
+    memo = {}
+    for t in (0, 1, 37, 128, 200, 254, 255):
+        if _tt(bdd, s.impl.handles[A][H[t]].node, list(range(nv)), memo) != t:
+            ctx.violation('C01:build', f'handle of {t:#x} built by | of cubes denotes something else',
+                          dict(stream=s.label))
+            return
+    case = lambda: dict(stream=s.label, lines=list(s.lines))  # noqa: E731
+    const_pairs = [(a, c) for a in (0, 255) for c in range(256)] + [(a, c) for a in range(256) for c in (0, 255)]
+
+    def pairs_for(op):
+        if all_pairs and op in ('le', 'lt', 'eq', 'ne'):
+            return [(k >> 8, k & 255) for k in range(65536)]
+        return const_pairs + [(rng.randrange(256), rng.randrange(256)) for _ in range(pairs_per_op)]
+    for op in ('le', 'lt', 'eq', 'ne'):
+        for a, c in pairs_for(op):
+            r = s.op(A, op, H[a], H[c])
+            e = {'eq': a == c, 'ne': a != c, 'le': (a & ~c & full) == 0,
+                 'lt': (a & ~c & full) == 0 and a != c}[op]
+            ctx.case(('F', op, a, c), True)
+            ctx.count('fop:' + op)
+            if r is not e:
+                ctx.violation('C01:function-operator',
+                              f'Function {op}: ({a:#x} {op} {c:#x}) returned {r}, expected {e}', case)
+                return
+    for op in ('and', 'or', 'implies', 'equiv', 'not'):
+        for a, c in pairs_for(op):
+            if op == 'not':
+                h = s.op(A, 'fapply', 'not', H[a], None)
+                e = a ^ full
+            else:
+                h = s.op(A, 'fapply', op, H[a], H[c])
+                e = gen.conn(op, a, c, full)
+            ctx.case(('F', op, a, c), True)
+            ctx.count('fop:' + op)
+            got = None if h is None else _tt(bdd, s.impl.handles[A][h].node, list(range(nv)), memo)
+            if got != e:
+                ctx.violation('C01:function-operator',
+                              f'Function {op} on {a:#x},{c:#x} gave {got}, expected {e:#x}', case)
+                return
+            # the manager holds every function: the node must be THE node of the result
+            if s.impl.handles[A][h].node != s.impl.handles[A][H[e]].node:
+                ctx.violation('C01:function-operator',
+                              f'Function {op} on {a:#x},{c:#x}: a second reference for {e:#x}', case)
+                return
+            s.op(A, 'drop', h)
+    s.digest(A)
+
+
 def run(ctx):
     q = ctx.quick
+    for order in (ctx.rng.sample(gen.orders(3), 1) if q else gen.orders(3)[:2]):
+        stream_f(ctx, order, pairs_per_op=300 if q else 5000, all_pairs=not q)
     gen.reuse_scenarios(ctx, 'C01:wrong-function', 'C01', reps=12 if q else 150)
     for order in gen.orders(3):
         for aged in (False, True):
